@@ -225,6 +225,32 @@ def replay_gate(eng, vc, spec, consts, int_names, base_query, max_models=6, neut
     return "unreproduced", {"tried": tried[:4]}
 
 
+CAND_GRID = [fractions.Fraction(x) for x in (-3, -2, -1, 0, 1, 2, 3, 4, 7, 16, 256)] + [fractions.Fraction(1, 2), fractions.Fraction(-1, 2),
+                                                                                       fractions.Fraction(3, 2), fractions.Fraction(1, 4)]
+
+
+def numeric_candidate(eng, vc, consts, int_names, tries=80):
+    """a point of a small rational grid at which path condition and query hold numerically (50-digit evaluation of the z3 terms)"""
+    import random
+    import mpmath
+    import z3
+    import oracle as orc
+    if not consts or any(not (z3.is_real(c) or z3.is_int(c)) for c in consts.values()):
+        return None
+    rng = random.Random(1234)
+    names = list(consts)
+    formula = z3.And(list(eng.pc) + [vc.query])
+    for _ in range(tries):
+        pt = {n: (rng.choice(CAND_GRID) if n not in int_names else fractions.Fraction(rng.randint(-2, 9))) for n in names}
+        val = {n: mpmath.mpf(v.numerator) / mpmath.mpf(v.denominator) for n, v in pt.items()}
+        try:
+            if orc.mp_bool(formula, val):
+                return pt
+        except Exception:  # noqa
+            continue
+    return None
+
+
 def run_job(args):
     prop_name, spec, opts = args
     t0 = time.time()
@@ -294,6 +320,30 @@ def run_job(args):
                         cx["examples"].append({"vc": vc.name, "z3": r, "cvc5": r2})
                     else:
                         cx["unknown"] += 1
+                if r == "unknown" and vc.judge is not None and not vc.info.get("concrete_only"):
+                    # the solver gave up: look for a numeric candidate that satisfies path condition and negated property at 50 digits and
+                    # hand it to the replay gate.  This can only turn an inconclusive obligation into a REPLAYED violation, never into a success.
+                    hit = numeric_candidate(eng, vc, ctx.consts, ctx.int_names)
+                    if hit is not None:
+                        enc, val = concretise(hit, ctx.int_names)
+                        try:
+                            couts = [decode_out(o) for o in run_concrete(spec, enc)]
+                            vc.enc = enc
+                            why = vc.judge(val, couts)
+                        except Exception:  # noqa
+                            why = None
+                        if why:
+                            r = "violation"
+                            rec = {"attributed": None, "inputs": enc, "inputs_rational": {k: str(v) for k, v in hit.items()},
+                                   "observed": [{k: v for k, v in o.items() if k != "mp"} for o in couts], "why": why, "found_by": "numeric candidate after solver unknown"}
+                            for fid in neutralisers:
+                                try:
+                                    outs2 = [decode_out(o) for o in run_concrete(spec, enc, neutralise=[fid])]
+                                    if not vc.judge(val, outs2):
+                                        rec["attributed"] = fid
+                                        break
+                                except Exception:  # noqa
+                                    pass
                 if r == "sat" and vc.info.get("concrete_only"):
                     # a supplementary obligation that only the un-instrumented interpreter can decide (e.g. real set/dict
                     # membership): run it once at a model of the path condition; counted under decided_without_final_query
